@@ -47,7 +47,7 @@ def cases(seed, tier, shard, nshards):
                            p_mult_node=0.3 if mode in ('node', 'mixed') else 0.0,
                            p_mult_branch=0.5 if mode in ('branch', 'mixed', 'unit_ring') else 0.0,
                            p_annot=rng.choice([0, 0.3]), annot_fn=lambda r: A.random_annotation(r, 'base'),
-                           p_trailing_branch=rng.choice([0, 0, 0.1]), max_mult=rng.choice([2, 3, 5]))
+                           p_trailing_branch=rng.choice([0, 0, 0.1]), max_mult=rng.choice([2, 3, 5, 12]))
         if mode == 'unit_ring':
             G.add_rings(rng, ast, 1, in_unit=True)
         if mode == 'one':
